@@ -32,7 +32,7 @@ CLAIMS = {
             "kernels' partial operations (division by n.dv, normalised cross products) are guarded by the parallel tests; (4) a numeric "
             "ordering comparison that leads straight to `return None` leaves a tolerance margin (merely touching operands are not "
             "reported as disjoint because of float noise). "
-            "NOT decided: that the kernels compute the right coordinates, that no point is missed in generic position, "
+            "Also decided (round 9): no position / direction mismatch in the code the property reaches and in the constructors of its operands (affine weights: a Vector argument in a constructor slot or move() must have the weight the slot fixes); the handlers' internal sanity raises are unreachable (also through type switches whose rows test different variables); each handler is bound by the dispatcher in one orientation; the linear solver picks its pivot by the pivot column. NOT decided: that the kernels compute the right coordinates, that no point is missed in generic position, "
             "the tolerance band, None only when disjoint."
         ),
         note=NOTE_COMMON + "A4: the three numeric kernels and the membership predicates compute what their names say.",
@@ -50,7 +50,7 @@ CLAIMS = {
             "Point-in-polyhedron predicates that clip every hit reject only beyond a tolerance margin that depends on the live get_eps() "
             "(touching and boundary hits are not lost to float noise), and so do numeric comparisons that lead straight to `return None` in the handlers and helpers "
             "(whether such a numeric pre-filter is geometrically right is NOT decided); the hits are merged only through the tolerant Point equality / hash -- no dictionary, "
-            "duplicate filter or count keyed by raw coordinate tuples (R2.6). NOT decided: coordinates, the "
+            "duplicate filter or count keyed by raw coordinate tuples (R2.6). Also decided (round 9): no position / direction mismatch in the code the property reaches and in the constructors of its operands (affine weights: a Vector argument in a constructor slot or move() must have the weight the slot fixes); the handlers' internal sanity raises are unreachable (also through type switches whose rows test different variables); each handler is bound by the dispatcher in one orientation; the linear solver picks its pivot by the pivot column. NOT decided: coordinates, the "
             "longest-segment selection, hash-merging of coincident hits, tangency classification."
         ),
         note=NOTE_COMMON + "A4 as for C01.",
@@ -64,6 +64,7 @@ CLAIMS = {
             "crossings; faces of each polyhedron clipped by the other -- as candidate-origin families of the result; "
             "every result return -- in particular `return None` -- lies behind all of these candidate families); result selection ordered by dimension and the cardinality ladders 0/1/2 points -> None/Point/Segment. NOT "
             "decided: that the collected vertex set is the true one, Euler reassembly, hash deduplication, measures."
+            ' Also decided (round 9): no position / direction mismatch in the code the property reaches and in the constructors of its operands (affine weights: a Vector argument in a constructor slot or move() must have the weight the slot fixes); internal sanity raises unreachable; handler bindings in one orientation; pivot column; the collinearity helper that guards the coplanar polygon / polygon routine answers True only with at most two points or after testing every further index. '
         ),
         note=NOTE_COMMON + "A4 as for C01.",
     ),
@@ -77,7 +78,7 @@ CLAIMS = {
             "loops cover all indices with a wrap-around successor; the polyhedron measures accumulate unconditionally over "
             "the whole edge set (a set: each edge once) / face list / pyramid set with exactly one pyramid per face in "
             "__init__ and move; the pyramid volume is 1/3 x height x base area in monomial normal form in both "
-            "Pyramid.volume and volume(), which sum the same pyramids. NOT decided: Heron / centroid-fan numerics to 1e-9, "
+            "Pyramid.volume and volume(), which sum the same pyramids. Also decided (round 9): a measure of a class with item assignment reads only the fields the assignment writes (R6.5). NOT decided: Heron / centroid-fan numerics to 1e-9, "
             "independence from vertex and face order (runtime sort, C09)."
         ),
         note=NOTE_COMMON,
@@ -90,7 +91,7 @@ CLAIMS = {
             "in both a and b -- the confinement theorem over every return site of the 28 handlers, the 3 hit-set helpers "
             "and the dispatcher, verified together (assume-guarantee over the mutual recursion); and None is absorbing "
             "(abstract evaluation of the dispatcher with None in either position; no direct handler call can receive a "
-            "possibly-None argument). NOT decided: idempotence, a in b => intersection(a, b) == a, associativity (they "
+            "possibly-None argument). Also decided (round 9): the collinearity helper answers True only with at most two points or after testing every further index (R12.4), so intersection(T, T) of a triangle cannot raise. NOT decided: idempotence, a in b => intersection(a, b) == a, associativity (they "
             "relate the results of different runtime computations)."
         ),
         note=NOTE_COMMON + "A4 as for C01.",
@@ -107,7 +108,7 @@ CLAIMS = {
             "add-count, that no membership test used by the handlers can fall through to NotImplementedError, and -- for the same-type "
             "pairs, where both argument orders run one handler with exchanged operands -- that at every result return the set of "
             "consulted candidate families (candidate-origin analysis) is closed under exchanging the operands. "
-            "NOT decided (listed as `undecided` in evidence): raises guarded only by runtime cardinalities or "
+            "Also decided (round 9): type switches whose rows test different variables (R4.7); the collinearity helper answers True only with at most two points or after testing every further index (R4.10), so a triangular common part cannot raise 'Bug detected'. NOT decided (listed as `undecided` in evidence): raises guarded only by runtime cardinalities or "
             "numeric geometry, and numeric coincidence of handler(a,b) and handler(b,a) for same-type pairs."
         ),
         note=NOTE_COMMON + "Kernel type fact (A4): in inter_plane_plane the auxiliary line meets plane b in a Point.",
@@ -127,7 +128,7 @@ CLAIMS = {
             "with no accepting return before the loop has completed; "
             "(4) every membership predicate is effect-free, so one `in` test cannot change the answer of the next; (5) every ordering "
             "comparison that can reject a Point leaves a tolerance margin depending on the live get_eps() (boundary points count as contained; "
-            "an exact `< 0` threshold is reported). NOT decided: the numerical truth of the Point-in-S predicates and the width of the tolerance band."
+            "an exact `< 0` threshold is reported). Also decided (round 9): no position / direction mismatch in the code the property reaches and in the constructors of its operands (affine weights: a Vector argument in a constructor slot or move() must have the weight the slot fixes) (R5.6). NOT decided: the numerical truth of the Point-in-S predicates and the width of the tolerance band."
         ),
         note=NOTE_COMMON + "Defining points are read from the inferred field table, not hard-coded.",
     ),
@@ -146,7 +147,7 @@ CLAIMS = {
             "because a by-reference constructor was fed from the other field -- derived from the effect summaries). Any other value stored on the object (a memoised measure, hash, "
             "pre-computed edge data) must be re-assigned or deleted by move(), or be translation invariant by a translation-invariance domain (positions, coordinates, "
             "differences, invariant scalars; interprocedural) -- in that domain the measure methods (Point.distance, length, area, volume, Pyramid.height) evaluate to "
-            "'invariant', i.e. measures are unchanged by construction. NOT decided: the function volume() (through distance / intersection), v then -v restores "
+            "'invariant', i.e. measures are unchanged by construction. Also decided (round 9): no position / direction mismatch in the code the property reaches and in the constructors of its operands (affine weights: a Vector argument in a constructor slot or move() must have the weight the slot fixes) (R7.7); Vector item access, through which Line.move translates component by component, is a plain element store / read (R7.6). NOT decided: the function volume() (through distance / intersection), v then -v restores "
             "equality (floating point)."
         ),
         note=NOTE_COMMON,
@@ -163,7 +164,7 @@ CLAIMS = {
             "order of polygons/polyhedra, and the choice of the stored support point of a Line / Plane -- decided in a "
             "degree/parity domain and by polynomial normal forms of the hashed value; __eq__/__hash__ store nothing on the "
             "(mutable) object, so a remembered hash cannot go stale after move / coordinate assignment / tolerance change; "
-            "Segment.__eq__ accepts both pairings; __eq__ uses direction fields only under parallel()/normalized() (also through helpers it delegates to). The parity domain joins over all definitions of a local; a conditional negation counts as a canonical orientation only if its guard orients all three components. NOT decided: that different sets "
+            "Segment.__eq__ accepts both pairings; __eq__ uses direction fields only under parallel()/normalized() (also through helpers it delegates to). The parity domain joins over all definitions of a local; a conditional negation counts as a canonical orientation only if its guard orients all three components. Also decided (round 9): the coordinate hash of Point / Vector separates every coordinate (polygon / polyhedron equality is equality of accumulated vertex hashes; R8.9); no exact float decision is reached from __eq__ / __hash__ (R8.10). NOT decided: that different sets "
             "compare unequal, rounding-boundary effects, int/Fraction mixing."
         ),
         note=NOTE_COMMON + "hash(), round() and normalized() are modelled as functional opaque atoms of their canonical arguments.",
@@ -178,7 +179,7 @@ CLAIMS = {
             "its helpers decides on the exact value (truthiness, == c, != c) of a coordinate-derived float (R10.6); the method forms forward (self, other); and "
             "no normalised cross product of direction vectors is taken without a guard that excludes parallel AND "
             "anti-parallel operands on every path (R-CROSS), so that parallel lines cannot raise; every computed value is of degree 0 "
-            "and even in each Line's direction vector (two representations of one line give one distance). NOT decided: that the "
+            "and even in each Line's direction vector (two representations of one line give one distance). Also decided (round 9): no position / direction mismatch in the code the property reaches and in the constructors of its operands (affine weights: a Vector argument in a constructor slot or move() must have the weight the slot fixes) (R10.8); exact float decisions over everything distance() reaches on the documented pairs (R10.6), degree 1 and no mixed-degree sums (R10.7), never the distance between one stored representative of each of two infinite sets (R10.9), one sign convention for the general form a x + b y + c z = d in its writer, its reader and the solver (R10.10). NOT decided: that the "
             "value is the Euclidean minimum and that it is zero exactly when the operands intersect."
         ),
         note=NOTE_COMMON,
@@ -194,7 +195,7 @@ CLAIMS = {
             "that parallel, anti-parallel and perpendicular operands cannot raise; the method forms forward (self, other). "
             "Inverse trigonometric sites: acos/asin arguments are clamped, atan is not applied to a quotient whose denominator is a sum or difference of the operands (atan2 is total). "
             "A predicate decided by comparing an inverse-cosine angle with the tolerance is reported (acos(1 - 2**-53) is about 1.5e-8). "
-            "NOT decided: that parallel/orthogonal are True exactly at angle 0 / pi/2 (tolerance numerics)."
+            "Also decided (round 9): predicate branches that call the sibling dispatcher or compare the direction vectors with == are classified (R11.3); no exact float decision is reached (R11.6); degree 0 (R11.7). NOT decided: that parallel/orthogonal are True exactly at angle 0 / pi/2 (tolerance numerics)."
         ),
         note=NOTE_COMMON,
     ),
@@ -211,7 +212,7 @@ CLAIMS = {
             "path with the right threshold; every ring/cap/side loop ranges over the full index range with a wrap-around "
             "successor (modulo, if-idiom, wrap helper or zip-with-rotation); in Cylinder and Cone every vertex ring used for the side faces is requested with the same "
             "centre, normal (up to a positive factor), radius and n as a cap, so caps and side faces share their vertices; the rejection guards of Parallelogram / Parallelepiped are even in every edge vector (parity domain: "
-            "a signed area / triple product compared one-sidedly refuses half of the valid argument orders). NOT decided: vertex/edge/face counts, vertices on the specified surface at equal steps, closed-form "
+            "a signed area / triple product compared one-sidedly refuses half of the valid argument orders). Also decided (round 9): no position / direction mismatch in the code the property reaches and in the constructors of its operands (affine weights: a Vector argument in a constructor slot or move() must have the weight the slot fixes) (R14.9); every builder input has a data or control dependence to the object returned (R14.8); Sphere's latitude rings are stacked in the order in which the faces connect them (R14.10). NOT decided: vertex/edge/face counts, vertices on the specified surface at equal steps, closed-form "
             "area and volume (numeric)."
         ),
         note=NOTE_COMMON,
@@ -228,7 +229,7 @@ CLAIMS = {
             "sits in a loop over the validated collection that no iteration can complete without; unsupported operand "
             "types make intersection/distance/angle/parallel/orthogonal/volume/move and the typed constructors raise "
             "(abstract evaluation on the unsupported types); exception objects are raised, not returned; constructors "
-            "assign all their fields. NOT decided: rejections that happen only through arithmetic/index exceptions "
+            "assign all their fields. Also decided (round 9): repeated vertices are merged before the first three stored vertices define the plane (R15.5). NOT decided: rejections that happen only through arithmetic/index exceptions "
             "(zero normal, collinear plane points, <3 distinct vertices) and whether the guards are sufficient."
         ),
         note=NOTE_COMMON + "Guards are recognised by CFG shape and data dependence, never by text.",
@@ -282,6 +283,7 @@ CLAIMS = {
             "independent of the tolerance); a __deepcopy__ hook is verified field by field to be the structural deep copy (every field deep-copied, or immutable, or a fresh "
             "container of immutable elements), other copy hooks, __slots__ or identity-based eq/hash (beyond the reflexive fast path) are reported, so a deep copy is independent "
             "and equal. Outside: floating-point values of the snapshots."
+            ' Also decided (round 9): a __deepcopy__ that rebuilds the object through a constructor which captures a mutable field shares it (R20.4); literal getattr / __dict__ membership are read as attribute accesses. '
         ),
         note=NOTE_COMMON + "Alias abstraction (S = what the object is, E = what it reaches) is a may-analysis: sound for 'no effect'.",
     ),
